@@ -308,10 +308,40 @@ task_curve_history.contract_fn = "curves.Curve.eval"
 
 
 # --------------------------------------------------------------------------------------
+# --------------------------------------------------------------------------------------
+# engine B: positive weights of very small / very large magnitude (the rational curve does not depend on a common factor of its weights): the curve is accepted
+# and evaluates to the same values
+# --------------------------------------------------------------------------------------
+def task_weight_scales():
+    from fractions import Fraction as F
+    fn = "curves.Curve.eval"
+    out = []
+    U = [0.0, 0.0, 0.0, 0.25, 1.0, 1.0, 1.0]
+    P = [1.0, -2.0, 3.0, 0.5]
+    W = [1.0, 2.0, 0.5, 3.0]
+    us = [0.0, 0.125, 0.25, 0.6, 1.0]
+    base = [curves.Curve(list(U), list(P), list(W))(u) for u in us]
+    for label, s_ in (("1e-170", 1e-170), ("1e-250", 1e-250), ("1e100", 1e100), ("Fraction(1,10**30)", F(1, 10 ** 30)), ("2**-600", 2.0 ** -600)):
+        bad = None
+        try:
+            c = curves.Curve(list(U), list(P), [w * s_ if not isinstance(s_, F) else F(w) * s_ for w in W])
+            got = [c(u) for u in us]
+            if any(abs(float(a) - float(b)) > 1e-9 * max(1.0, abs(float(b))) for a, b in zip(got, base)):
+                bad = "values %s, with unscaled weights %s" % ([float(x) for x in got], [float(x) for x in base])
+        except Exception as e:
+            bad = "%s: %s" % (type(e).__name__, str(e)[:100])
+        out.append(ob("%s:weights-scaled[%s]" % (fn, label), fn, FAILED if bad else PROVED, "B", "concrete", 0.0,
+                      bad or "accepted, same values as with the unscaled weights", dict(kind="c01.wscale", case=label) if bad else None))
+    return out + [{"_stats": dict(cases=len(out))}]
+
+
+task_weight_scales.contract_fn = "curves.Curve.eval"
+
+
 def tasks(tier, seed):
     from ..pyvc.driver import verify
     from ..contracts import curvesv, kv, misc
-    ts = [(verify, (c, m, q, v)) for c, m, q, v in curvesv.ALL if q == "Curve.eval"] + [(task_curve_history, ())]
+    ts = [(verify, (c, m, q, v)) for c, m, q, v in curvesv.ALL if q == "Curve.eval"] + [(task_curve_history, ()), (task_weight_scales, ())]
     ts += [(verify, (kv.SPAN_SINGLE, "heavy", "ImmutableKnotVector.__span_single")),
           (verify, (kv.VALID_SINGLE, "heavy", "ImmutableKnotVector.__valid_single")),
           (verify, (misc.HORNER, "heavy", "BasisFunction.horner_method"))]
@@ -346,6 +376,9 @@ def concrete_inputs(w):
 
 def replay(o):
     w = o["witness"]
+    if w.get("kind") == "c01.wscale":
+        r = [x for x in task_weight_scales() if "id" in x and x["id"].endswith("[%s]" % w["case"])][0]
+        return r["status"] == FAILED, "accepted and the same values as with the unscaled weights", r["detail"]
     if w.get("kind") == "c01.history":
         r = [x for x in task_curve_history() if "id" in x and x["id"].endswith("[%s]" % w["case"])][0]
         return r["status"] == FAILED, "the value of the CURRENT curve at every step", r["detail"]
